@@ -131,6 +131,11 @@ def gen_arith(tier, seed, universe=None, maxlen=3):
             lines.append(f"pow ${h} $24 n:2"); h += 1
             for op in ("neg", "absm", "sign"):
                 lines.append(f"{op} ${h} $24"); h += 1
+            # counts on the right as well (summed over their other dimensions, re-ordered to x's order)
+            lines.append(arr_line(26, 11, ys, [Fraction(r.randint(1, 9)) for _ in range(size(ys))]).replace("arr ", "iarr ", 1))
+            for op in ("add", "sub", "min", "max", "mul"):
+                lines.append(f"{op} ${h} $20 $26"); h += 1
+                lines.append(f"{op} ${h} $24 $26"); h += 1
             # subclasses on the left (Parameter, StockArray, Flow) and numpy scalars on the right
             for kind in ("param", "stock", "flow"):
                 lines.append(arr_line(h, 10, xs, rand_vals(r, size(xs), nonzero=True)).replace("arr ", f"sarr {kind} ", 1)); sub = h; h += 1
@@ -224,6 +229,31 @@ def gen_reduce(tier, seed, universe=None, maxlen=3):
             lines.append(f"dset $199 $7 " + " ".join(f"${HANDLE[l]}" for l in letters if l != xs[0]))
             lines.append(f"castto ${h} $20 $199"); h += 1
             stats["same_name_other_letter_targets"] = stats.get("same_name_other_letter_targets", 0) + 2
+        if xs:
+            # the first dimension handed over as another Dimension object of the same letter and name whose
+            # items come in another order: dimensions are picked by letter, labels and values stay the array's
+            l0 = xs[0]
+            u0 = UNIVERSE[l0].split(":")
+            lines.append(f"dim $8 {':'.join(u0[:4])}:{','.join(reversed(u0[4].split(',')))}")
+            lines.append(f"sumto ${h} $20 d:$8"); h += 1
+            lines.append(f"sumover ${h} $20 d:$8"); h += 1
+            # cast targets that add a dimension of another letter, first with its usual length, then
+            # with another one (same letters, other number of items)
+            if other:
+                o = other[0]
+                uo = UNIVERSE[o].split(":")
+                lines.append(dset_line(195, list(xs) + [o]))
+                lines.append(f"castto ${h} $20 $195"); h += 1
+                lines.append(f"dim $9 {':'.join(uo[:4])}:{uo[4]},{'i77' if uo[3] == 'i' else 'sextra'}")
+                lines.append(f"dset $196 " + " ".join(f"${HANDLE[l]}" for l in xs) + " $9")
+                lines.append(f"castto ${h} $20 $196"); h += 1
+            # entries that cancel over the whole array but not within the groups
+            if LENS[l0] == 2:
+                half = [abs(v) for v in rand_vals(r, size(xs) // 2, nonzero=True)]
+                lines.append(arr_line(28, 10, xs, half + [-v for v in half]))
+                for k in range(len(xs) + 1):
+                    for so in itertools.combinations(xs, k):
+                        lines.append(f"shares ${h} $28 {''.join(so) or '-'}"); h += 1
         # cumsum: every letter, a foreign letter, a name
         for l in xs:
             lines.append(f"cumsum ${h} $20 {l}"); h += 1
@@ -253,6 +283,9 @@ def gen_reduce(tier, seed, universe=None, maxlen=3):
             for so in itertools.combinations(xs, k):
                 lines.append(f"shares ${h} $27 {''.join(so) or '-'}"); h += 1
         lines.append(f"sumto ${h} $27"); h += 1
+        for keep in ordered_subsets(xs, len(xs)):
+            if len(keep) >= 2:
+                lines.append(f"sumto ${h} $27 " + " ".join(f"k:{l}" for l in keep)); h += 1
         for l in xs:
             lines.append(f"cumsum ${h} $27 {l}"); h += 1
         for l in xs:
